@@ -468,6 +468,9 @@ pub fn run_real(env: &RealEnv, w: &World, inv: &RInv) -> ROut {
     let mut cmd = Command::new(prog);
     cmd.args(&full_args).current_dir(&cwd).stdin(Stdio::null()).stdout(Stdio::piped()).stderr(Stdio::piped());
     cmd.env("RUST_BACKTRACE", "0");
+    // sanitizer builds of n2: reports are fatal and recognisable by exit status
+    cmd.env("ASAN_OPTIONS", "detect_leaks=0:exitcode=98:abort_on_error=0");
+    cmd.env("TSAN_OPTIONS", "exitcode=66:halt_on_error=1");
     // own process group, so that stragglers can be reaped
     unsafe {
         use std::os::unix::process::CommandExt;
